@@ -468,6 +468,27 @@ def r27_for_vec(src, item, ed, opts):
         ed.count("R27")
 
 
+def r29_iter_param_to_slice(src, item, ed, opts):
+    """an `impl Iterator<Item = &'a T>` parameter that is used only as the operand of ONE `for`
+    loop -> `&[T]` (iter_params=[{name="keys", elem="Value"}]).  `for x in s` over a slice visits
+    the same elements in the same order as `for x in s.iter()` (std: IntoIterator for &[T]), so the
+    function is verified for every finite sequence of elements."""
+    for sp in opts.get("iter_params", []):
+        ps = [p for p in item["inputs"] if not p.get("self") and p.get("pat") in (sp["name"], "mut" + sp["name"])]
+        if not ps:
+            raise LostAnchor(f"parameter `{sp['name']}` of {item['path']}")
+        ty = src.text(*ps[0]["ty"]).replace(" ", "")
+        if not ty.startswith("implIterator<Item=&"):
+            raise Unsupported(f"R29 expects `impl Iterator<Item = &T>`, found `{ty}`")
+        body = src.text(item["block"][0], item["block"][1])
+        uses = len(re.findall(r"\b" + re.escape(sp["name"]) + r"\b", body))
+        loops = [n for n in nodes_of(item, "loop") if n["loop_kind"] == "for" and src.text(*n["expr"]).strip() == sp["name"]]
+        if uses != 1 or len(loops) != 1:
+            raise Unsupported(f"R29: `{sp['name']}` must be used exactly once, as the operand of a for loop (uses={uses})")
+        ed.replace(ps[0]["ty"][0], ps[0]["ty"][1], f"&[{sp['elem']}]", "R29")
+        ed.count("R29")
+
+
 def r28_let_type(src, item, ed, opts):
     """`let PAT = E` -> `let PAT: T = E` for lets named in the sidecar (let_types=[{select="mutx", ty="T"}]):
     an explicit annotation of the type rustc infers anyway (if it were a different type the unit would
@@ -705,6 +726,8 @@ def extract_fn(src, spec, unit_rules):
         r24_call_shim(src, item, ed, spec)
     if "let_types" in spec:
         r28_let_type(src, item, ed, spec)
+    if "iter_params" in spec:
+        r29_iter_param_to_slice(src, item, ed, spec)
     if "R9" in rules:
         r9_visibility(src, item, ed, spec)
 
